@@ -4,8 +4,8 @@ SPEC = dict(
     rule="rapid-generated command sequences (1-60 commands of the documented KV/hash/list/set/zset command set incl. clear/keyexist extensions and multi-key DEL/EXISTS/MGET) over small adversarial per-case pools "
          "(names that are prefixes of each other, contain ':' 0x00 0xff, empty members/values, integer extremes, score ties, fractional and huge scores, negative and out-of-range indexes), sent through the server's redis entry point; "
          "every reply, a read-back of the touched key after every write and of the whole pool at the end are compared with lib/model (errors by class). non-trivial = a collection was emptied and re-created, OR a command repeats a member/field/key, OR a negative/out-of-range index hit a non-empty list/zset. "
-         "Grammar exclusions (not generated, neither checked nor claimed): infinite/NaN scores and the sign of zero; inverted infinite range bounds ('+inf' as min, '-' as max: answered with an error instead of an empty result); indexes beyond +-100 (the documented 5000-element fetch limit is computed before clamping); "
-         "names containing 0x00 on the mem engine and MGET across partitions while the corresponding known findings are open.",
+         "Grammar exclusions (not generated, neither checked nor claimed): infinite/NaN scores; inverted infinite range bounds ('+inf' as min, '-' as max: answered with an error instead of an empty result); indexes beyond +-100 (the documented 5000-element fetch limit is computed before clamping); "
+         "names containing 0x00 on the mem engine and MGET across partitions while the corresponding known findings are open; the score -0 is generated (a quarter of the cases) and only the sign of a zero in a sorted-set reply is not compared while C08-negative-zero-score-sign is open.",
     assumptions=[
         "reference model lib/model written from Redis semantics + doc/user-guide.md; modelled deviations: *CLEAR return 1/0, TTL of a missing key is -1, INCR/INCRBY/HINCRBY wrap on int64 overflow, ZRANGEBYLEX on mixed scores is in member order, scores print as strconv 'g' format",
         "log timestamps are the real wall clock here (expiry is C10's subject); only far-future TTLs are generated",
